@@ -30,6 +30,11 @@ def programs(ctx, n):
             p.append(c04.head_rule(rng, plain, 3))
         for _ in range(rng.randint(0, 2)):
             p.append({'part': rng.choice(gen.PARTS), 'head': ('cons',), 'body': [(rng.choice('pnm'), ('tel', gen.formula(rng, plain, 3)))]})
+        if rng.random() < 0.5:
+            # arithmetic in n-fold prefixes: same term shape, different value from program to program
+            e = rng.choice(['1+2', '3-1', '1+1', '2-1', '2+1', '4-2', '1+0', '3-2', '0+3'])
+            op = rng.choice(['>', '>:', '<', '<:'])
+            p.append({'part': rng.choice(['initial', 'always']), 'head': ('cons',), 'body': [(rng.choice('nm'), ('tel', ({'>': 'next', '>:': 'wnext', '<': 'prev', '<:': 'wprev'}[op], '(%s)' % e, ('atom', plain[0]))))]})
         rng.shuffle(p)
         k = rng.choice([1, 1, 2, 3])
         cut = sorted(rng.sample(range(1, len(p)), min(k - 1, len(p) - 1))) if len(p) > 1 else []
@@ -52,7 +57,7 @@ def canon(r):
 
 def run(ctx):
     progs = programs(ctx, 150 if ctx.quick else 1500)
-    H = 2
+    H = 3
     seeds = ['0', '1', '2'] if ctx.quick else [str(x) for x in range(16)]
     cex, nontriv = [], set()
     # (a) fresh workers per hash seed (small pools: each worker still serves several requests, histories differ per seed)
